@@ -24,7 +24,16 @@ class C07(SimCheck):
     ]
 
     def make_config(self, seed, tier, index=0):
-        return pair.make_config(seed, tier)
+        cfg = pair.make_config(seed, tier)
+        # stalled application callbacks (1 run in 6): a hook that returns only after seconds of simulated time, while
+        # the peer reconnects, logs on and asks for resends underneath the suspended task
+        import random
+
+        rs = random.Random(seed ^ 0xC0757)
+        if rs.random() < 1 / 6:
+            cfg.update(p_hook=max(cfg["p_hook"], 0.3), p_hook_stall=0.3, hook_stall_s=rs.choice([1.5, 4.0, 8.0]) * cfg["hb"],
+                       max_breaks=max(cfg["max_breaks"], 1), profile="stalled_hooks")
+        return cfg
 
     def make_sim(self, cfg, trace=None):
         return pair.PairSim(cfg, trace)
